@@ -31,9 +31,41 @@ type histS struct {
 	B string `nbt:"b"`
 }
 
+type histArrays struct {
+	Ba []byte  `nbt:"ba"`
+	Ia []int32 `nbt:"ia"`
+	La []int64 `nbt:"la"`
+	S  string  `nbt:"s"`
+}
+
 type histOp struct {
 	Name string
 	Run  func() string // "" when the call behaved as specified, else what differed
+}
+
+// What a call returned stays the caller's: the bytes Marshal handed out and the values a decode stored
+// must still be what they were after any later call (an implementation that lends out pooled buffers
+// breaks this). An operation registers a re-check of its result with retain; runHistory runs the
+// re-checks of all earlier calls after every later call of the history.
+type retainedCheck struct {
+	op    string
+	check func() string
+}
+
+var retained []retainedCheck
+var retainOp string
+
+func retain(check func() string) {
+	retained = append(retained, retainedCheck{retainOp, check})
+}
+
+func retainBytes(got, want []byte) {
+	retain(func() string {
+		if !bytes.Equal(got, want) {
+			return fmt.Sprintf("the returned bytes now read %x, they were %x", got, want)
+		}
+		return ""
+	})
 }
 
 // histMenu builds the menu for struct type t, which must have fields A int32 `nbt:"a"` and B string `nbt:"b"` first.
@@ -58,6 +90,22 @@ func histMenu(t reflect.Type) []histOp {
 	wantV.Field(0).SetInt(5)
 	wantV.Field(1).SetString("hi")
 	want := wantV.Interface()
+	want2V := newS()
+	want2V.Field(0).SetInt(-1)
+	want2V.Field(1).SetString("another, longer string value")
+	want2 := want2V.Interface()
+	docOther := refnbt.Append(nil, "", cmp(refnbt.Field{Name: "a", Val: &refnbt.Node{Tag: refnbt.Int, I: -1}}, refnbt.Field{Name: "b", Val: &refnbt.Node{Tag: refnbt.String, S: "another, longer string value"}}), false)
+	docBytes := refnbt.Append(nil, "", &refnbt.Node{Tag: refnbt.ByteArray, A: []int64{7, 8, 9}}, false)
+	arrays := func(salt int64) *refnbt.Node {
+		return cmp(refnbt.Field{Name: "ba", Val: &refnbt.Node{Tag: refnbt.ByteArray, A: []int64{1 + salt, 2, 3}}},
+			refnbt.Field{Name: "ia", Val: &refnbt.Node{Tag: refnbt.IntArray, A: []int64{-1, salt}}},
+			refnbt.Field{Name: "la", Val: &refnbt.Node{Tag: refnbt.LongArray, A: []int64{salt, 1 << 40}}},
+			refnbt.Field{Name: "s", Val: &refnbt.Node{Tag: refnbt.String, S: fmt.Sprint("str", salt)}})
+	}
+	docArrays, docArrays2 := refnbt.Append(nil, "", arrays(0), false), refnbt.Append(nil, "", arrays(9), false)
+	wantArraysAny := map[string]any{"ba": []byte{1, 2, 3}, "ia": []int32{-1, 0}, "la": []int64{0, 1 << 40}, "s": "str0"}
+	wantArrays := histArrays{[]byte{1, 2, 3}, []int32{-1, 0}, []int64{0, 1 << 40}, "str0"}
+	wantArrays2 := histArrays{[]byte{10, 2, 3}, []int32{-1, 9}, []int64{9, 1 << 40}, "str9"}
 	docUpper := refnbt.Append(nil, "", cmp(refnbt.Field{Name: "A", Val: fa.Val}, fx, refnbt.Field{Name: "B", Val: fb.Val}), false)
 	wantAny := map[string]any{"a": int32(5), "extra": "q", "b": "hi"}
 	okS := func(err error, got histS) string {
@@ -159,7 +207,66 @@ func histMenu(t reflect.Type) []histOp {
 			if err != nil || !bytes.Equal(got, docClean) {
 				return fmt.Sprintf("emitted %x (err %v), the documented mapping gives %x", got, err, docClean)
 			}
+			retainBytes(got, docClean)
 			return ""
+		}},
+		{"Marshal(struct with other, longer contents)", func() string {
+			got, err := nbt.Marshal(want2)
+			if err != nil || !bytes.Equal(got, docOther) {
+				return fmt.Sprintf("emitted %x (err %v), the documented mapping gives %x", got, err, docOther)
+			}
+			retainBytes(got, docOther)
+			return ""
+		}},
+		{"Marshal([]byte)", func() string {
+			got, err := nbt.Marshal([]byte{7, 8, 9})
+			if err != nil || !bytes.Equal(got, docBytes) {
+				return fmt.Sprintf("emitted %x (err %v), the documented mapping gives %x", got, err, docBytes)
+			}
+			retainBytes(got, docBytes)
+			return ""
+		}},
+		{"Unmarshal(arrays doc, *any)", func() string {
+			var v any
+			if err := nbt.Unmarshal(docArrays, &v); err != nil {
+				return fmt.Sprintf("a well-formed document was rejected: %v", err)
+			}
+			chk := func() string {
+				if !reflect.DeepEqual(v, wantArraysAny) {
+					return fmt.Sprintf("decoded value reads %#v, the document says %#v", v, wantArraysAny)
+				}
+				return ""
+			}
+			retain(chk)
+			return chk()
+		}},
+		{"Unmarshal(arrays doc, *struct of slices)", func() string {
+			var v histArrays
+			if err := nbt.Unmarshal(docArrays, &v); err != nil {
+				return fmt.Sprintf("a well-formed document was rejected: %v", err)
+			}
+			chk := func() string {
+				if !reflect.DeepEqual(v, wantArrays) {
+					return fmt.Sprintf("decoded value reads %#v, the document says %#v", v, wantArrays)
+				}
+				return ""
+			}
+			retain(chk)
+			return chk()
+		}},
+		{"Unmarshal(other arrays doc, *struct of slices)", func() string {
+			var v histArrays
+			if err := nbt.Unmarshal(docArrays2, &v); err != nil {
+				return fmt.Sprintf("a well-formed document was rejected: %v", err)
+			}
+			chk := func() string {
+				if !reflect.DeepEqual(v, wantArrays2) {
+					return fmt.Sprintf("decoded value reads %#v, the document says %#v", v, wantArrays2)
+				}
+				return ""
+			}
+			retain(chk)
+			return chk()
 		}},
 		{"Encoder.Encode(struct, \"root\")", func() string {
 			var buf bytes.Buffer
@@ -188,9 +295,19 @@ func histMenu(t reflect.Type) []histOp {
 
 // runHistory runs the calls in order; it reports the first call that departs from its expectation.
 func runHistory(menu []histOp, idx []int) (class, detail string) {
+	retained = retained[:0]
 	for k, i := range idx {
 		var what string
+		earlier := len(retained)
+		retainOp = menu[i].Name
 		kind, frame, panicked := engine.Guard(func() { what = menu[i].Run() })
+		if !panicked && what == "" {
+			for _, r := range retained[:earlier] {
+				if d := r.check(); d != "" {
+					return "history/" + r.op + "/result-changed-by/" + menu[i].Name, fmt.Sprintf("what %q returned was changed by the later call %q: %s", r.op, menu[i].Name, d)
+				}
+			}
+		}
 		if panicked {
 			what = fmt.Sprintf("panic %s in %s", kind, frame)
 		}
